@@ -36,6 +36,21 @@ fn textops_record<T: DiffableStr + ?Sized>(
         if ovr >= 0 {
             cfg.newline_terminated(ovr == 1);
         }
+        if kind == "slices" {
+            // diff_slices over the line tokens: not newline-terminated unless overridden
+            let ot = old.tokenize_lines();
+            let nt = new.tokenize_lines();
+            let diff = cfg.diff_slices(&ot, &nt);
+            let slice_ops = capture_diff_slices(alg, &ot, &nt);
+            return Some((
+                ops_json(diff.ops()),
+                ops_json(&slice_ops),
+                alg_name(diff.algorithm()),
+                diff.newline_terminated(),
+                ot.len(),
+                nt.len(),
+            ));
+        }
         let diff = match kind {
             "lines" => cfg.diff_lines(old, new),
             "words" => cfg.diff_words(old, new),
@@ -163,6 +178,10 @@ pub fn drive_c14(a: &Args, out: &mut Out) {
             if let (Ok(xs), Ok(ys)) = (std::str::from_utf8(x), std::str::from_utf8(y)) {
                 let case = out.next_case();
                 out.emit(&textops_record::<str>(case, alg, kind, "str", ovr, xs, ys));
+                if ki == 0 {
+                    let case = out.next_case();
+                    out.emit(&textops_record::<str>(case, alg, "slices", "str", ovr, xs, ys));
+                }
             }
         }
     }
